@@ -34,26 +34,36 @@ type Program struct {
 func LoadProgram(repoDir, harnessDir string, patterns []string) (*Program, error) {
 	overlay := map[string][]byte{}
 	// every file in harnessDir/<pkgdir>/*.go except *_native.go and *_test.go is injected
-	err := filepath.Walk(harnessDir, func(p string, info os.FileInfo, err error) error {
-		if err != nil {
-			return err
+	var err error
+	for _, dir := range []string{harnessDir, genDir} {
+		if dir == "" {
+			continue
 		}
-		if info.IsDir() || !strings.HasSuffix(p, ".go") {
+		dir := dir
+		err = filepath.Walk(dir, func(p string, info os.FileInfo, err error) error {
+			if err != nil {
+				return err
+			}
+			if info.IsDir() || !strings.HasSuffix(p, ".go") {
+				return nil
+			}
+			if strings.HasSuffix(p, "_native.go") || strings.HasSuffix(p, "_test.go") {
+				return nil
+			}
+			if dir == harnessDir && strings.HasPrefix(filepath.Base(p), "zz_verif_gen_") {
+				return nil // stale generated file of an older layout
+			}
+			rel, _ := filepath.Rel(dir, p)
+			data, err := os.ReadFile(p)
+			if err != nil {
+				return err
+			}
+			overlay[filepath.Join(repoDir, rel)] = data
 			return nil
-		}
-		if strings.HasSuffix(p, "_native.go") || strings.HasSuffix(p, "_test.go") {
-			return nil
-		}
-		rel, _ := filepath.Rel(harnessDir, p)
-		data, err := os.ReadFile(p)
+		})
 		if err != nil {
-			return err
+			return nil, err
 		}
-		overlay[filepath.Join(repoDir, rel)] = data
-		return nil
-	})
-	if err != nil {
-		return nil, err
 	}
 	cfg := &packages.Config{
 		Mode:    packages.LoadAllSyntax,
